@@ -15,7 +15,8 @@ EXPLANATION = ('The decorated entries of the default function tables are called 
                'student-facing error at zero denominators, and satisfies f(f_inverse(x)) = x under explicitly listed axioms (no branch convention '
                'is imposed). arctan2 argument order, kronecker, min/max (2-4 args), re/im/conj on reals and cross/trans/trace/norm/abs on arrays of '
                'symbolic entries are decided against index-loop oracles. A concrete companion grid compares every table entry (incl. complex points) with '
-               'Python\'s math/cmath and checks arity/shape errors - that part is plain evaluation, stated as such.')
+               'Python\'s math/cmath and checks arity/shape errors - that part is plain evaluation, stated as such.'
+               ' Concrete companions: every function of the MatrixGrader namespace x 9 argument shapes (domain table), complex arguments to real-only functions, and the value of every element-wise function under 7 numeric carrier types of the same argument.')
 ASSUMPTIONS = ['primitive ufunc VALUES come from numpy C code and are outside the symbolic claim; they are sampled on a concrete grid only',
                'axioms used are listed in the evidence (axioms field)']
 BOUNDS = {'quick': 'one symbolic real argument per function (any real / any real in the stated domain); arrays 2x2, 3x3, vectors of length 3; '
